@@ -61,7 +61,7 @@ FromProj(p) ==
         prod |-> SeqSet(p.prod), meta |-> SeqSet(p.meta)]
 
 MaxC == 6
-NoPend == [op |-> "none", r |-> <<>>, lin |-> FALSE, cls |-> "", pre |-> Empty]
+NoPend == [op |-> "none", r |-> <<>>, lin |-> FALSE, cls |-> "", pre |-> Empty, rid |-> 0 - 1]
 
 TInit ==
     /\ l = 1 /\ pend = [c \in 1..MaxC |-> NoPend] /\ clean = TRUE /\ hno = 0
@@ -80,10 +80,18 @@ TReset ==
     /\ clean' = TRUE /\ hno' = hno + 1 /\ l' = l + 1
     /\ UNCHANGED <<hist, file>>
 
+\* the node id the answer to the request invoked at line i will name (-1: no answer / not a create): which id a
+\* new node gets is not part of the contract, only that it is fresh at the linearization point
+AnswerRid(i) ==
+    LET c == Trace[i].r.cl
+        J == {j \in (i + 1)..Len(Trace) : Trace[j].k = "resp" /\ Trace[j].r.cl = c}
+    IN IF J = {} THEN 0 - 1 ELSE Trace[CHOOSE j \in J : \A m \in J : j <= m].rid
+
 TInv ==
     /\ l <= Len(Trace) /\ Line.k = "inv"
     /\ pend[Line.r.cl].op = "none"
-    /\ pend' = [pend EXCEPT ![Line.r.cl] = [op |-> "req", r |-> Line.r, lin |-> FALSE, cls |-> "", pre |-> Empty]]
+    /\ pend' = [pend EXCEPT ![Line.r.cl] = [op |-> "req", r |-> Line.r, lin |-> FALSE, cls |-> "", pre |-> Empty,
+                                              rid |-> AnswerRid(l)]]
     /\ UNCHANGED <<g, hist, snap, file, clean, hno>> /\ l' = l + 1
 
 \* the body was built for these node types: does the abstract request still mean what was sent?
@@ -99,14 +107,14 @@ Lin(c) ==
     /\ LET r == pend[c].r IN
        IF ~Assumed(g, r)
        THEN TLCSet(NH + hno, TRUE) /\ FALSE        \* inconclusive on this path
-       ELSE /\ g' = Effect(g, snap, r)
+       ELSE /\ g' = EffectK(g, snap, r, IF FreshId(g, pend[c].rid) THEN pend[c].rid ELSE NewId(g.ids))
             /\ pend' = [pend EXCEPT ![c].lin = TRUE, ![c].cls = Class(g, r), ![c].pre = g]
     /\ UNCHANGED <<l, hist, snap, file, clean, hno>>
 
 Ok2xx(st) == st >= 200 /\ st < 300
 Err(st) == st >= 400 /\ st < 600
 ResponseOK(gr, r, ln) ==
-    CASE r.kind = "create" -> ln.rid = NewId(gr.ids) /\ ln.rtype = r.a
+    CASE r.kind = "create" -> FreshId(gr, ln.rid) /\ ln.rtype = r.a
       [] r.kind = "getval" -> ln.rval = gr.val[r.a]
       [] r.kind = "getname" -> ln.rval = gr.name[r.a]
       [] r.kind = "getgraph" -> Clean(ln.rg) /\ Core(ln.rg) = ModelCore(gr)
